@@ -192,6 +192,23 @@ CLAIMS = {
         design="§7 C08",
         note=TB + "Emit determinism (same description, same options -> same bytes) is C12's; ast.unparse runs for real.",
     ),
+    "C18": dict(
+        technique="Lean 4 theorems on a model of textwrap.fill for the simple class of text (layout-only, width bound, fits => identity) + per-width sub-process differential run; wrapped-vs-unwrapped parse comparison on the real code",
+        text=(
+            "Kernel-checked: Wrap.wrapGo_flatten / wrapWords_flatten (the words of the produced lines, in order, are exactly "
+            "the input words: wrapping is layout only - nothing lost, duplicated or moved), wrapGo_width (no line exceeds "
+            "the width when no single word does), wrapGo_fits and fillSimple_id (text that fits the width is returned "
+            "unchanged, for EVERY width), with join_split / lineLen_split; all by induction over the word list, no bound. "
+            "Wrap.fillSimple is tied to doctrans.pure_utils.fill (textwrap at the configured width) by a differential run "
+            "in one sub-process per width (the setting is read at import). The predicate runs every emitter at every width "
+            "of the sweep with word_wrap on and compares parse(wrapped) with parse(unwrapped) modulo whitespace. Partial: "
+            "what the parsers do with wrapped lines is not modelled - numpydoc continuation lines and wrapped :type lines "
+            "are recorded findings; text outside the simple class (hyphens, words longer than the width) is covered by the "
+            "predicate only."
+        ),
+        design="§7 C18",
+        note=TB + "textwrap.fill outside the simple class (break_long_words, break_on_hyphens, tabs) is not modelled.",
+    ),
 }
 
 PENDING_REASON = "check not built yet in this round (work in progress; see DESIGN.md §10 build order) — not a claim that the technique cannot apply"
